@@ -85,6 +85,10 @@ static int manage_srcs(m_mod_t *mod, m_ctx_t *c, int flag, bool stop) {
     for (int i = 0; i < M_SRC_TYPE_END; i++) {
         m_itr_foreach(mod->srcs[i], {
             ev_src_t *t = m_itr_get(m_itr);
+            if (flag == RM && t->type == M_SRC_TYPE_TASK) {
+                /* Its task may still be running: the source (and its notification fd) must outlive it */
+                wait_task(t);
+            }
             if (flag == RM && stop) {
                 if (t->type == M_SRC_TYPE_PS) {
                     /*
